@@ -1,0 +1,11 @@
+//go:build !verif
+
+package verifhook
+
+import "context"
+
+// Enabled reports whether the simulation hooks are compiled in.
+const Enabled = false
+
+// Point marks a named instrumentation site. It does nothing in normal builds.
+func Point(ctx context.Context, site string, args ...any) error { return nil }
